@@ -53,6 +53,8 @@ structure PI (c : Cfg) (ex : Option Nat) (fl : Nat) (T : Nat → Prop) (C : List
   ctxInj : ∀ a b x y i, s.actor a = some x → s.actor b = some y → x.ctx = some i → y.ctx = some i → a = b
   pend : ∀ a x st, s.actor a = some x → some a ≠ ex → isPendOf x.pend st →
            st.ts ≤ s.now ∧ 0 < st.size ∧ ∀ i, x.ctx = some i → ∀ r ∈ chain (s.th i), r.ts ≤ st.ts
+  /-- every context's queue has the configured capacity -/
+  capOK : ∀ i, i < s.ths.length → (s.th i).q.cap = s.cfg.qcap
   ord : c.grace ≠ 0 → c.refreshAfterSample = true → PremI s → Ord fl T s
 
 theorem Ord.cast {fl T} {s s' : BSt} (o : Ord fl T s) (h1 : s'.popLog = s.popLog) (h2 : ∀ i, s'.th i = s.th i)
@@ -73,8 +75,9 @@ structure ThEq (t t' : Th) : Prop where
   rpos : t'.q.rpos = t.q.rpos
   valid : t'.valid = t.valid
   wc : t'.q.wcache = t.q.wcache ∨ t'.q.wcache = t'.q.wHist.headD 0
+  cap : t'.q.cap = t.q.cap
 
-theorem ThEq.refl (t : Th) : ThEq t t := ⟨rfl, rfl, rfl, rfl, rfl, rfl, rfl, .inl rfl⟩
+theorem ThEq.refl (t : Th) : ThEq t t := ⟨rfl, rfl, rfl, rfl, rfl, rfl, rfl, .inl rfl, rfl⟩
 
 theorem ThEq.chain {t t' : Th} (h : ThEq t t') : chain t' = chain t := by
   simp only [PB.chain, h.buf, h.q]
@@ -111,6 +114,7 @@ theorem PI.congr {ex fl T C} {s s' : BSt} (h : PI c ex fl T C s) (hcfg : s'.cfg 
     obtain ⟨h1, h2, h3⟩ := h.pend a x st hx hex hp
     refine ⟨by rw [hnow]; exact h1, h2, fun i hi r hr => ?_⟩
     rw [(hth i).chain] at hr; exact h3 i hi r hr
+  capOK := fun i hi => by rw [(hth i).cap, hcfg]; exact h.capOK i (by rw [← hlen]; exact hi)
   ord := fun hg0 hr0 hp => by
     have hp0 : PremI s := fun i st hst => by
       have := hp i st (by rw [(hth i).acc]; exact hst)
@@ -187,19 +191,22 @@ theorem PI.unex {fl T C} {s : BSt} {a : Nat} (h : PI c none fl T C s) : PI c (so
 
 theorem qPrepareWrite_fields (c : Cfg) (q : Spsc.St) (n : Nat) :
     (qPrepareWrite c q n).1.wpos = q.wpos ∧ (qPrepareWrite c q n).1.wHist = q.wHist ∧
-    (qPrepareWrite c q n).1.rpos = q.rpos ∧ (qPrepareWrite c q n).1.wcache = q.wcache := by
+    (qPrepareWrite c q n).1.rpos = q.rpos ∧ (qPrepareWrite c q n).1.wcache = q.wcache ∧
+    (qPrepareWrite c q n).1.cap = q.cap := by
   simp only [qPrepareWrite, Spsc.absApi, Spsc.apiOps]
   split <;> simp [Spsc.run, Spsc.step]
 
 theorem qFinishCommit_fields (c : Cfg) (q : Spsc.St) (n : Nat) :
     (qFinishCommit c q n).wpos = q.wpos + n ∧ (qFinishCommit c q n).wHist = (q.wpos + n) :: q.wHist ∧
-    (qFinishCommit c q n).rpos = q.rpos ∧ (qFinishCommit c q n).wcache = q.wcache := by
+    (qFinishCommit c q n).rpos = q.rpos ∧ (qFinishCommit c q n).wcache = q.wcache ∧
+    (qFinishCommit c q n).cap = q.cap := by
   simp [qFinishCommit, Spsc.absApi, Spsc.apiOps, Spsc.run, Spsc.step]
 
 theorem qPrepareRead_fields (c : Cfg) (q : Spsc.St) :
     (qPrepareRead c q).1.wpos = q.wpos ∧ (qPrepareRead c q).1.wHist = q.wHist ∧
     (qPrepareRead c q).1.rpos = q.rpos ∧
-    ((qPrepareRead c q).1.wcache = q.wcache ∨ (qPrepareRead c q).1.wcache = (qPrepareRead c q).1.wHist.headD 0) := by
+    ((qPrepareRead c q).1.wcache = q.wcache ∨ (qPrepareRead c q).1.wcache = (qPrepareRead c q).1.wHist.headD 0) ∧
+    (qPrepareRead c q).1.cap = q.cap := by
   simp only [qPrepareRead, Spsc.absApi, Spsc.apiOps]
   split <;> simp [Spsc.run, Spsc.step]
 
@@ -226,7 +233,8 @@ theorem qPrepareRead_false (c : Cfg) (q : Spsc.St) (h : (qPrepareRead c q).2 = f
 
 theorem qEmpty_fields (c : Cfg) (q : Spsc.St) :
     (qEmpty c q).1.wpos = q.wpos ∧ (qEmpty c q).1.wHist = q.wHist ∧ (qEmpty c q).1.rpos = q.rpos ∧
-    ((qEmpty c q).1.wcache = q.wcache ∨ (qEmpty c q).1.wcache = (qEmpty c q).1.wHist.headD 0) := by
+    ((qEmpty c q).1.wcache = q.wcache ∨ (qEmpty c q).1.wcache = (qEmpty c q).1.wHist.headD 0) ∧
+    (qEmpty c q).1.cap = q.cap := by
   simp only [qEmpty, Spsc.absApi, Spsc.apiOps]
   split <;> simp [Spsc.run, Spsc.step]
 
@@ -249,22 +257,22 @@ theorem qEmpty_true (c : Cfg) (q : Spsc.St) (h : (qEmpty c q).2 = true) : q.wHis
 
 theorem qFinishRead_fields (c : Cfg) (q : Spsc.St) (n : Nat) :
     (qFinishRead c q n).wpos = q.wpos ∧ (qFinishRead c q n).wHist = q.wHist ∧ (qFinishRead c q n).rpos = q.rpos + n ∧
-    (qFinishRead c q n).wcache = q.wcache := by
+    (qFinishRead c q n).wcache = q.wcache ∧ (qFinishRead c q n).cap = q.cap := by
   simp [qFinishRead, Spsc.absApi, Spsc.apiOps, Spsc.run, Spsc.step]
 
 theorem qCommitRead_fields (c : Cfg) (q : Spsc.St) :
     (qCommitRead c q).wpos = q.wpos ∧ (qCommitRead c q).wHist = q.wHist ∧ (qCommitRead c q).rpos = q.rpos ∧
-    (qCommitRead c q).wcache = q.wcache := by
+    (qCommitRead c q).wcache = q.wcache ∧ (qCommitRead c q).cap = q.cap := by
   simp only [qCommitRead, Spsc.absApi, Spsc.apiOps, Spsc.run, Spsc.step]
   split <;> simp
 
 theorem ThEq.ofQ (t : Th) (q' : Spsc.St) (h : q'.wpos = t.q.wpos ∧ q'.wHist = t.q.wHist ∧ q'.rpos = t.q.rpos ∧
-    (q'.wcache = t.q.wcache ∨ q'.wcache = q'.wHist.headD 0)) : ThEq t { t with q := q' } :=
-  ⟨rfl, rfl, rfl, h.1, by simp [h.2.1], h.2.2.1, rfl, h.2.2.2⟩
+    (q'.wcache = t.q.wcache ∨ q'.wcache = q'.wHist.headD 0) ∧ q'.cap = t.q.cap) : ThEq t { t with q := q' } :=
+  ⟨rfl, rfl, rfl, h.1, by simp [h.2.1], h.2.2.1, rfl, h.2.2.2.1, h.2.2.2.2⟩
 
 theorem ThEq.ofQ' (t : Th) (q' : Spsc.St) (h : q'.wpos = t.q.wpos ∧ q'.wHist = t.q.wHist ∧ q'.rpos = t.q.rpos ∧
-    q'.wcache = t.q.wcache) : ThEq t { t with q := q' } :=
-  ThEq.ofQ t q' ⟨h.1, h.2.1, h.2.2.1, .inl h.2.2.2⟩
+    q'.wcache = t.q.wcache ∧ q'.cap = t.q.cap) : ThEq t { t with q := q' } :=
+  ThEq.ofQ t q' ⟨h.1, h.2.1, h.2.2.1, .inl h.2.2.2.1, h.2.2.2.2⟩
 
 /-- an empty queue is reported empty -/
 theorem QC.empty_true {t : Th} (h : QC t) (c : Cfg) (he : t.qStmts = []) : (qEmpty c t.q).2 = true := by
